@@ -64,7 +64,7 @@ CHECKS = {
 
  "C01": dict(cat="exploration", tech="differential monitor: library binary encoder/decoder vs an independent reference layout model and strict parser, over seeded well-formed messages with forced coverage",
    text="Each generated message (54k quick / 4M thorough; every operation x direction, object type, key format, standard attribute, credential type forced and counted) is laid out by an independently written reference model (own reflect walk, pinned tag and version tables, hand-modelled batch items/unions/opaque values); the library's bytes must parse strictly to exactly that tree, decode to a message with the same tree, and re-encode to identical bytes. Sampling of an unbounded space with required coverage counters; a run that misses a class exits 2.",
-   note="The model reads field order and omitempty from the struct definitions (a wrong omitempty is seen only by C04-B). Pins are the author's reading of KMIP 1.0-1.4.", ref="§2 C01"),
+   note="Field order and optionality are pinned (ref/layout.json, dumped from the pinned tree and spot-checked against KMIP 1.4); tags and version gates are pinned too. Pins are the author's reading of KMIP 1.0-1.4.", ref="§2 C01"),
  "C05": dict(cat="exploration", tech="differential monitor against a pinned version-gate table: exhaustive field x version x populated x context matrix, decode-side version rewrite, annotation diff",
    text="All 61 pinned version-dependent fields x 5 versions x populated/unpopulated x 6 surrounding contexts are encoded in binary, XML and JSON and compared with the reference layout at that version (no later element, every valid populated element; text documents read by the harness's own readers); the full 1.4 encoding with the header version rewritten is decoded and must return every element; live version= annotations are diffed against the pin; plus 8k/600k random messages with gated fields populated regardless of version. The matrix is enumerated completely; contexts and surrounding content are sampled.",
    note="Gate table pinned from the tree after review against KMIP 1.0-1.4; a field unknown to both pin and library is invisible.", ref="§2 C05"),
@@ -78,22 +78,24 @@ CHECKS = {
 }
 # additions after the second round of seeded changes (DESIGN.md §14)
 ADD = {
- "C01": "The buffer handed to the decoder is overwritten as soon as the decoder returns; comparison and re-encoding happen after that.",
+ "C01": "Field order and optionality of the reference layout come from the pinned layout table (ref/layout.json), dates may carry non-UTC locations, and the bytes returned for the previous message are re-checked after later encode calls. The buffer handed to the decoder is overwritten as soon as the decoder returns; comparison and re-encoding happen after that.",
  "C02": "Nested-extent family (3k/90k documents in XML, JSON and binary): a nested structure receives trailing children (an unknown-type element, altered copies of the parent's following fields); everything decoded outside that structure must equal what the undisturbed message decodes to, or the input is rejected.",
- "C03": "Every tree is also encoded through one long-lived encoder after a filler message and Clear(); the bytes must equal the independent generator's.",
- "C05": "Sequence family (1.5k/60k): 2-4 messages of different versions through ONE encoder, appended (binary) or with Clear() in between (binary, XML, JSON), each judged against the layout of its own version.",
+ "C03": "The bytes returned for the previous tree are re-checked after later encode calls. Every tree is also encoded through one long-lived encoder after a filler message and Clear(); the bytes must equal the independent generator's.",
+ "C05": "Concurrent family in isolated race-detector processes (4/64 x 25 rounds of 16 goroutines alternating the extreme versions): each output judged against its own version, and a race report in the version-gating code is a violation. Sequence family (1.5k/60k): 2-4 messages of different versions through ONE encoder, appended (binary) or with Clear() in between (binary, XML, JSON), each judged against the layout of its own version.",
  "C06": "Concurrent family: 8 goroutines decode messages with goroutine-specific custom attributes / unknown operations and must re-encode their own bytes. The isolated late-registration family also registers a NAME for a vendor operation and then decodes all 27 built-in operations written by name by the harness's own XML/JSON writers.",
- "C07": "Every fifth stream item is a bare scalar (9 leaf types, padded lengths).",
+ "C07": "One item in twelve is a correctly delimited frame with an invalid type byte: Recv fails, consumes exactly the frame, later messages intact. Every fifth stream item is a bare scalar (9 leaf types, padded lengths).",
  "C08": "TLS family (24/600): TLS listener over the in-memory listener with peers that stay silent, send only a record header, garbage, plain-text KMIP or leave; well-behaved TLS clients must be served meanwhile, nothing may survive the peers, and Shutdown must return with peers still stalled.",
- "C09": "Versions family: all 31 supported-version sets (shuffled) x 11 request versions inside, in gaps of, below and above the set.",
- "C10": "A further plan makes the server write a server-to-client request on the connection ahead of the response.",
- "C11": "Double-fault family (120 sampled / all 6720): the first connection fails at (kind1, op<14) and the connection that replaces it at (kind2, op<10); at most two consecutive calls may fail. Late-response family (30/3000): a net.Conn wrapper hands the frame-completing Read over only when Close is called, with the call abandoned by cancellation, deadline or Close; call returns, client recovers, census.",
+ "C09": "Sequence family (1.5k/100k): 3-8 requests on ONE executor with Discover Versions sub-lists and handlers cancelling the request context mid-batch. Versions family: all 31 supported-version sets (shuffled) x 11 request versions inside, in gaps of, below and above the set.",
+ "C10": "A plan where the Write that delivered the request reports an error. A further plan makes the server write a server-to-client request on the connection ahead of the response.",
+ "C11": "Two fault kinds leave the peer healthy (io.ErrShortWrite after 5 bytes; error after complete delivery). Double-fault family (120 sampled / all 6720): the first connection fails at (kind1, op<14) and the connection that replaces it at (kind2, op<10); at most two consecutive calls may fail. Late-response family (30/3000): a net.Conn wrapper hands the frame-completing Read over only when Close is called, with the call abandoned by cancellation, deadline or Close; call returns, client recovers, census.",
  "C13": "The scripted matrix runs through Dial and through DialCluster (with and without WithRetryTimeout): 19840 Dials. Arbitrary-lists family (4k/400k): server lists with duplicates, versions unknown to the library (0.9, 1.5, 2.x, 3.0), any order and length, and discovery failing with reasons other than 'operation not supported'.",
- "C14": "A builder that produces no object for a key the property names is a violation. The transport buffer is overwritten after decoding. Held family (60/6000): 3-8 objects received on one stream, keys extracted after the last message arrived.",
- "C15": "A fifth action stores the empty value; in half of the rounds a batch-splitting middleware passes half of the requests on in chunks through separate continuation calls.",
+ "C14": "Every second transparent RSA registration uses an equal key that was never Precompute()d. A builder that produces no object for a key the property names is a violation. The transport buffer is overwritten after decoding. Held family (60/6000): 3-8 objects received on one stream, keys extracted after the last message arrived.",
+ "C15": "Reads alternate between IdPlaceholder and GetIdOrPlaceholder. A fifth action stores the empty value; in half of the rounds a batch-splitting middleware passes half of the requests on in chunks through separate continuation calls.",
  "C16": "Repeated-shutdown family (45/1500): two concurrent Shutdown calls, a second call while the first waits, listener closed by the owner first; verdicts use the first return.",
+ "C12": "BatchResult.Unwrap() must surface any failed item with status, reason and message; the server's message contains percent signs.",
+ "C20": "Decode inputs in XML/JSON carry enumeration values by name half of the time; a quarter of the message encodes go through the package-level Marshal functions; histories contain encode calls that panic half way (a Go map as attribute value) and are recovered.",
  "C17": "Isolated family with vendor enumerations under extension tags whose Go type names equal standard tag names (State, ObjectType).",
- "C19": "The server chains also run every program over a core that panics, returns an error, or (message chain) rejects the protocol version; the reference interpreter models what the innermost stage gets back.",
+ "C19": "Substituted-message family (6k/300k): a middleware passes on a message with another continuation option, version or item list; handler executions and response must equal those of a middleware-free executor given that message. Stage results are logged on the error path too. The server chains also run every program over a core that panics, returns an error, or (message chain) rejects the protocol version; the reference interpreter models what the innermost stage gets back.",
 }
 for _k, _v in ADD.items():
     CHECKS[_k]["text"] += " " + _v
